@@ -134,6 +134,26 @@ def program(kind, d):
             ("limit", lambda q: q.limit(2)),
         ]
         need = {0}
+    elif kind == 8:  # GROUP BY ... WITH ROLLUP (MySQL form) + HAVING: the modifier belongs to the GROUP BY list
+        base = lambda: Q.from_(t).groupby(t.a).rollup(vendor="mysql")  # noqa: E731
+        calls = [
+            ("select", lambda q: q.select(t.a)),
+            ("select", lambda q: q.select(fn.Sum(t.b))),
+            ("having", lambda q: q.having(fn.Count(t.c) > 1)),
+            ("where", lambda q: q.where(t.d == 1)),
+            ("orderby", lambda q: q.orderby(t.a)),
+        ]
+        need = {0}
+    elif kind == 9:  # GROUP BY ... WITH TOTALS: with_totals() before or after groupby()
+        base = lambda: Q.from_(t)  # noqa: E731
+        calls = [
+            ("select", lambda q: q.select(t.a)),
+            ("groupby", lambda q: q.groupby(t.a)),
+            ("with_totals", lambda q: q.with_totals()),
+            ("having", lambda q: q.having(fn.Count(t.c) > 1)),
+            ("orderby", lambda q: q.orderby(t.a)),
+        ]
+        need = {0, 1, 2}
     else:
         raise AssertionError(kind)
     return base, calls, need
@@ -154,7 +174,7 @@ def sort_conjuncts(sql):
     return sql[:i + 7] + " AND ".join(parts) + sql[j:]
 
 
-NKIND = 8
+NKIND = 10
 
 
 def orderings(n):
@@ -190,7 +210,7 @@ def run(base, calls, order):
     return q
 
 
-CLAUSES = ["WITH", "SELECT", "INSERT", "UPDATE", "DELETE", "CREATE", "INTO", "SET", "VALUES", "FROM", "FORCE INDEX",
+CLAUSES = ["WITH ROLLUP", "WITH TOTALS", "WITH", "SELECT", "INSERT", "UPDATE", "DELETE", "CREATE", "INTO", "SET", "VALUES", "FROM", "FORCE INDEX",
            "USE INDEX", "JOIN", "PREWHERE", "WHERE", "GROUP BY", "HAVING", "ORDER BY", "LIMIT", "OFFSET", "FETCH NEXT",
            "FOR UPDATE", "ON CONFLICT", "ON DUPLICATE KEY UPDATE", "DO UPDATE SET", "RETURNING"]
 PAGINATION = ("LIMIT", "OFFSET", "FETCH NEXT")
@@ -232,8 +252,11 @@ def well_formed(sql, kind, d):
     if kws is None:
         return "unbalanced brackets or quotes"
     # order classes per statement kind
+    if kind in (8, 9):
+        kind = 0
     if kind == 0:
-        order = ["WITH", "SELECT", "FROM", "FORCE INDEX", "USE INDEX", "JOIN", "PREWHERE", "WHERE", "GROUP BY", "HAVING",
+        order = ["WITH", "SELECT", "FROM", "FORCE INDEX", "USE INDEX", "JOIN", "PREWHERE", "WHERE", "GROUP BY", "WITH TOTALS",
+                 "WITH ROLLUP", "HAVING",
                  "ORDER BY", "P", "FOR UPDATE"]
     elif kind == 1:
         order = ["INSERT", "INTO", "VALUES", "ON CONFLICT", "ON DUPLICATE KEY UPDATE", "DO UPDATE SET", "WHERE", "RETURNING"]
@@ -278,7 +301,7 @@ def well_formed(sql, kind, d):
     bounds={"quick": {"D2": 0}, "thorough": {"D2": 14}},
     timeout={"quick": 300, "thorough": 2400},
     witness=[dict(kind=0, d=2, drop1=0, drop2=0, o=3), dict(kind=2, d=1, drop1=3, drop2=0, o=1)],
-    doc="8 statement programs x 6 dialect classes; selectors: up to two optional calls dropped, ordering = identity / "
+    doc="10 statement programs x 6 dialect classes; selectors: up to two optional calls dropped, ordering = identity / "
         "reversal / every rotation / every transposition; every ordering renders the canonical SQL, which is well-formed",
 )
 def c13_orders(kind: int, d: int, drop1: int, drop2: int, o: int) -> int:
